@@ -6,20 +6,23 @@ import CoapVerif.Driver.BlockXmit
 /- Line-protocol driver for Model/BlockTok.lean (C09): the client's Block2 receive path with `sent` possibly NULL (`crcvs`)
    and `coap_check_update_token` (`ctok`).  Output formats mirror harness/block.c (`do_crcv_x`, `do_ctok`). -/
 -- DRIVER-OPS: crcvs => Coap.Driver.BlockTok.crcvsLine
+-- DRIVER-OPS: crcvo => Coap.Driver.BlockTok.crcvoLine
 -- DRIVER-OPS: ctok => Coap.Driver.BlockTok.ctokLine
 -- DRIVER-OPS: crcvt => Coap.Driver.BlockTok.crcvtLine
 -- DRIVER-OPS: xmit1t => Coap.Driver.BlockTok.xmit1tLine
 namespace Coap.Driver.BlockTok
 open Coap Coap.Block Coap.Driver.Block
 
-/-- as `crcvRun`, every item with a leading field u (1 = `sent` is NULL) -/
-def crcvsRun (single : Bool) (body : Bytes) (size2 : Option Nat) :
+/-- as `crcvRun`, every item with a leading field u (1 = `sent` is NULL).  `noff` (op `crcvo`): the Block2 option on the wire
+carries NUM = num + noff while the payload is still the slice of the (small) body at num -/
+def crcvsRun (noff : Nat) (single : Bool) (body : Bytes) (size2 : Option Nat) :
     List (List Nat) → Option Crcv → List String → List String
   | [], _, acc => acc.reverse
   | it :: rest, st, acc =>
     match it with
     | u :: num :: m :: szx :: etag :: fmt :: tl =>
-      if u > 1 ∨ szx > 6 ∨ m > 1 ∨ etag > 255 ∨ fmt > 255 ∨ tl.length > 2 then ("bad-op" :: acc).reverse else
+      if u > 1 ∨ szx > 6 ∨ m > 1 ∨ etag > 255 ∨ fmt > 255 ∨ tl.length > 2 ∨ (noff ≠ 0 ∧ num + noff > 0xFFFFF) then
+        ("bad-op" :: acc).reverse else
       let chunk := 2 ^ (szx + 4)
       let off := if num * chunk > body.length then body.length else num * chunk
       let plen0 := if body.length - off < chunk then body.length - off else chunk
@@ -29,10 +32,10 @@ def crcvsRun (single : Bool) (body : Bytes) (size2 : Option Nat) :
       let sz2 := match tl with
         | [_, s2] => if s2 = 0 then none else some (s2 - 1)
         | _ => size2
-      let r : Resp := { blk := some (num, m, szx), payload := (body.drop off).take plen, size2 := sz2,
+      let r : Resp := { blk := some (num + noff, m, szx), payload := (body.drop off).take plen, size2 := sz2,
                         etag := if etag = 0 then none else some [UInt8.ofNat etag], fmt := fmt }
       let (st', o) := crcvStepS (u == 0) single Coap.Generated.rblockCnt 0 st r
-      crcvsRun single body size2 rest st' ((showCrcvOut o ++ "/" ++ showCrcvState st') :: acc)
+      crcvsRun noff single body size2 rest st' ((showCrcvOut o ++ "/" ++ showCrcvState st') :: acc)
     | _ => ("bad-op" :: acc).reverse
 
 def crcvsLine (args : List String) : String :=
@@ -43,9 +46,27 @@ def crcvsLine (args : List String) : String :=
       match (seq.split (· == ',')).toList.mapM (fun x => splitNats x.toString '.') with
       | none => "bad-op"
       | some its => "M " ++ String.intercalate ","
-          (crcvsRun (single != 0) (mkBody bodyLen seed) (if d = "-" then none else nat? d) its
+          (crcvsRun 0 (single != 0) (mkBody bodyLen seed) (if d = "-" then none else nat? d) its
             (if init != 0 then some {} else none) [])
     | _, _, _, _ => "bad-op"
+  | _ => "bad-op"
+
+/-- `crcvo <single> <bodyLen> <seed> <size2|-> <init> <noff> <items>`: `crcvs` with the NUM offset (harness `do_crcv_x`, numoff).
+In single-body mode a block that reaches `coap_block_build_body` at NUM + noff would need a buffer of (NUM + noff) * chunk bytes:
+the generator keeps single-body lines off that path (responses refused before the store, random access once the lg_crcv is gone) -/
+def crcvoLine (args : List String) : String :=
+  match args with
+  | [a, b, c, d, e, f, seq] =>
+    match nat? a, nat? b, nat? c, nat? e, nat? f with
+    | some single, some bodyLen, some seed, some init, some noff =>
+      match (seq.split (· == ',')).toList.mapM (fun x => splitNats x.toString '.') with
+      | none => "bad-op"
+      | some its =>
+        if noff > 0xFFFFF ∨ bodyLen > 65536 then "bad-op" else
+        "M " ++ String.intercalate ","
+          (crcvsRun noff (single != 0) (mkBody bodyLen seed) (if d = "-" then none else nat? d) its
+            (if init != 0 then some {} else none) [])
+    | _, _, _, _, _ => "bad-op"
   | _ => "bad-op"
 
 /-- list of entries `<apphex or dash>/<state>` separated by commas, or a single dash -/
